@@ -1,6 +1,7 @@
 import ERP.Lemmas.Ctrl
 import ERP.Properties.C03
 import ERP.Lemmas.GenConsts
+import ERP.Lemmas.GenTies
 /-! # C14 — @-commands switch exclusion off and on correctly -/
 namespace ERP.C14
 open ERP T Spec
